@@ -75,8 +75,8 @@ MARKUP_OPTION_KEYS = ['output.indent', 'output.baseIndent', 'output.selfClosingS
                       'output.booleanAttributes']
 STYLE_OPTION_KEYS = ['stylesheet.after', 'stylesheet.between', 'stylesheet.intUnit', 'stylesheet.floatUnit', 'stylesheet.unitless',
                      'stylesheet.shortHex', 'stylesheet.json', 'output.indent', 'output.format', 'custom.flag', 'stylesheet.keywords']
-MARKUP_SNIPPET_KEYS = ['a', 'zz', 'tm', '!!!', 'link', 'img', 'bq']
-STYLE_SNIPPET_KEYS = ['m', 'zz', 'bd', 'p', 'pos']
+MARKUP_SNIPPET_KEYS = ['a', 'zz', 'tm', '!!!', 'link', 'img', 'bq', 'zy|zx', 'a|zw']
+STYLE_SNIPPET_KEYS = ['m', 'zz', 'bd', 'p', 'pos', 'zy|zx']
 VARIABLE_KEYS = ['lang', 'vv', 'charset', 'locale']
 
 
@@ -84,6 +84,8 @@ def snippet_value(style, key, tag, n):
     t = ('%s%d' % (tag, n)).lower()
     if style:
         num = TAGN[tag] * 10 + n
+        if '|' in key:
+            return 'z-index:%d' % (num + 100)
         if key == 'm':
             return 'margin:%d' % num
         if key == 'p':
@@ -93,6 +95,8 @@ def snippet_value(style, key, tag, n):
         if key == 'pos':
             return 'position:%s|relative' % t
         return 'z-index:%d' % num
+    if '|' in key:
+        return 'div.%s-%s' % (key.replace('|', '-'), t)
     if key == '!!!':
         return '{<!-- %s -->}' % t
     if key == 'tm':
@@ -150,9 +154,9 @@ def gen_global(rng, cfg_specs, n):
 
 MARKUP_ABBRS = ['ul>li.item[title]', 'zz', 'a', 'img', 'div[lang=${lang}]', 'div{${charset}}', 'tm', '!!!', 'input[disabled.]',
                 'div.c/', 'link', 'bq>p', 'label[for=x].y', '..cls', 'p>span*2', 'div{${locale}}>zz', 'section>(a+img)*2', 'br+hr',
-                'html>body>div>p', 'p>a+em+span+b', 'input[checked title]', 'div>span*4', 'ul>li*2>a', 'table>tr>td']
+                'html>body>div>p', 'p>a+em+span+b', 'input[checked title]', 'div>span*4', 'ul>li*2>a', 'table>tr>td', 'zy+zx', 'zw>a']
 STYLE_ABBRS = ['m10', 'zz', 'm', 'p10+m5', 'bd', 'c#f', 'p', 'pos', 'w1.5', 'z5+zz', 'm1.5-2', 'lh2', 'bd+m+p', 'posr', 'c#fc0.5',
-               'm:a', 'd:n', 'p-a', 'zom+z5', 'fw5', 'm0-auto', 'w10+h.5']
+               'm:a', 'd:n', 'p-a', 'zom+z5', 'fw5', 'm0-auto', 'w10+h.5', 'zy+zx']
 
 
 def gen_c20(run_seed):
@@ -205,7 +209,10 @@ def gen_c20(run_seed):
         if spec.get('holder') == 'none' and r < 0.33:
             r = 0.5   # nothing to resolve: call instead
         if r < 0.33:
-            ops.append({'op': 'resolve', 'cfg': cid})
+            op = {'op': 'resolve', 'cfg': cid}
+            if maybe(rng, 0.3):
+                op['poke'] = True
+            ops.append(op)
         elif r < 0.6:
             pool = STYLE_ABBRS if style else MARKUP_ABBRS
             abbr = '+'.join(pick(rng, pool) for _ in range(pick(rng, [1, 1, 2, 3])))
@@ -318,7 +325,7 @@ def gen_c20_grid(index):
                 ops.append({'op': 'edit_cfg', 'cfg': 'c0', 'path': [kind, key], 'value': val('U'), 'inplace': bool(n % 2)})
             else:
                 ops.append({'op': 'edit_cfg', 'cfg': 'c0', 'path': [kind, key], 'delete': True, 'inplace': bool(n % 2)})
-            ops.append({'op': 'resolve', 'cfg': 'c0'})
+            ops.append({'op': 'resolve', 'cfg': 'c0', 'poke': bits in (0, 5)})
             ops.append({'op': 'call', 'cfg': 'c0', 'abbr': grid_abbr(t, kind, key), 'pin': 0, 'c20': True})
     return {'world': world, 'ops': ops, 'meta': {'grid': [t, s, kind]}}
 
